@@ -6,6 +6,7 @@ CONSTANTS
   Bind <- Bind3
   MayFail = TRUE
   AtomicInstall = TRUE
+  CheckOnRollout = TRUE
   DisposeOnConflict = TRUE
 INVARIANTS
   O_Ownership
